@@ -52,19 +52,19 @@ let hex (s : string) : string =
 let hexb (l : byte list) = hex (string_of_bytes l)
 
 (* ---- JSON lines (all payload strings are hex or plain ASCII identifiers) ---- *)
-type json = S of string | I of int | B of bool | L of json list | Ob of (string * json) list
+type json = JS of string | JI of int | JB of bool | JL of json list | Ob of (string * json) list
 let rec json_to b = function
-  | S s -> Buffer.add_char b '"';
+  | JS s -> Buffer.add_char b '"';
       String.iter (fun c -> match c with
         | '"' -> Buffer.add_string b "\\\"" | '\\' -> Buffer.add_string b "\\\\"
         | c when Char.code c < 0x20 || Char.code c > 0x7e -> Buffer.add_string b (Printf.sprintf "\\u%04x" (Char.code c))
         | c -> Buffer.add_char b c) s;
       Buffer.add_char b '"'
-  | I i -> Buffer.add_string b (string_of_int i)
-  | B x -> Buffer.add_string b (if x then "true" else "false")
-  | L l -> Buffer.add_char b '['; List.iteri (fun i x -> if i > 0 then Buffer.add_char b ','; json_to b x) l; Buffer.add_char b ']'
+  | JI i -> Buffer.add_string b (string_of_int i)
+  | JB x -> Buffer.add_string b (if x then "true" else "false")
+  | JL l -> Buffer.add_char b '['; List.iteri (fun i x -> if i > 0 then Buffer.add_char b ','; json_to b x) l; Buffer.add_char b ']'
   | Ob l -> Buffer.add_char b '{';
-      List.iteri (fun i (k, v) -> if i > 0 then Buffer.add_char b ','; json_to b (S k); Buffer.add_char b ':'; json_to b v) l;
+      List.iteri (fun i (k, v) -> if i > 0 then Buffer.add_char b ','; json_to b (JS k); Buffer.add_char b ':'; json_to b v) l;
       Buffer.add_char b '}'
 let emit (oc : out_channel) (j : json) =
   let b = Buffer.create 256 in json_to b j; Buffer.add_char b '\n'; output_string oc (Buffer.contents b)
